@@ -40,12 +40,17 @@ META = {
                   "state; items_agree and as_dict_agrees (no hypothesis at all): items/keys/values and as_dict of any tree are "
                   "those of the dictionary; dotted_eq_stepwise / stepwise_eq_dotted: reading s1.s2...sn as one dotted string is "
                   "reading ns[s1][s2]...[sn] for any depth; clash_names_transparent: the user-visible behaviour does not depend "
-                  "on the clash set (method-name keys are stored and returned like any other); failed_op_changes_nothing. "
+                  "on the clash set (method-name keys are stored and returned like any other); failed_op_changes_nothing; "
+                  "eq_agrees: Python's == on stored trees (argparse __eq__, order-insensitive dict equality) is == on the "
+                  "user-visible dictionaries, for any two values in stored form at every depth. "
+                  "fixed_refines_through_dicts: the model of the patched code equals the dictionary on a kernel-evaluated "
+                  "product of ~37000 histories THROUGH dict-valued leaves (length <=2 over 73 operations, length 3 after a dict store). "
                   "path_through_dict_refuted: outside the guard the refinement fails on the pinned code (ns['a']={'b':1}; "
                   "ns['a.b'] raises) — open finding path-through-dict with a repair in fixes/C11-path-through-dict.patch.",
     "level_note": "Only exercised by the correspondence (model AND spec agreement demanded per step, judged inside Coq, not "
                   "proved): update(namespace), Namespace(dict), dict_to_namespace, namespace_to_dict (= as_dict, no shared "
-                  "branch), == / != (Python equality of the stored trees vs equality of the dictionaries, order-insensitive), "
+                  "branch), == / != as a step of histories (the standalone theorem eq_agrees needs stored form at every depth, which "
+                  "the refinement invariant does not carry below lists), "
                   "step-by-step reading as an operation of histories, clone's no-aliasing check, and all histories through a "
                   "dict-valued leaf. Not modelled: exception classes, aliasing between a stored value and the caller's object, "
                   "as_flat, get_sorted_keys, meta keys / strip_meta, non-string dict keys, dict keys that are attribute names of "
